@@ -146,6 +146,13 @@ def guarded(oracle: Callable[[Any], Result]) -> Callable[[Any], Result]:
             return r
         except Exception as exc:  # noqa: BLE001
             frame = baize_frame(exc)
+            obj = getattr(exc, "obj", None) if isinstance(exc, AttributeError) else None
+            if frame is None and obj is not None and (type(obj).__module__ or "").startswith("baize"):
+                # the oracle (or the server model) read a documented attribute of a baize object - exc.status_code,
+                # response.headers ... - and the object does not have it: the code under test is broken, not the harness
+                r = Result()
+                r.fail(f"crash:AttributeError@{type(obj).__name__}.{getattr(exc, 'name', '?')}", "a baize object lacks an attribute the oracle reads: " + "".join(traceback.format_exception(exc))[-1200:])
+                return r
             if frame is None:
                 raise HarnessError(
                     "oracle raised outside baize: " + "".join(traceback.format_exception(exc))[-3000:]
